@@ -304,6 +304,7 @@ def check(ctx):
 
     # ---- B11: uninitialised locals ------------------------------------------------------------------------------
     _uninit(ctx, p, funcs)
+    _uninit_members(ctx, p)
 
     ctx.note('not decided: heap containers (%d subscript sites on std::vector/map/string), object lifetime at quit' % n_heap)
 
@@ -915,6 +916,50 @@ def _uninit(ctx, p, funcs):
                    'local `%s` (declared without initialiser) is assigned on every path before it is read' % d['name'],
                    site=f.loc(bad or d), sample=(n_l <= 2 or bad is not None))
     ctx.floor('C10.B11.initialised', n_l, 5, 'uninitialised scalar declarations')
+
+
+def _uninit_members(ctx, p):
+    """B12: objects that are copied must not carry indeterminate bool/enum members. For every engine class that is copied
+    somewhere (copy/move constructor or assignment called from engine code) every user-provided, non-delegating constructor
+    that engine code calls directly must give each bool/enum member a value: member initialiser, default member initialiser, or an
+    assignment in the body. (A constructor that only runs inside a value-initialised aggregate starts from zeroed storage.)"""
+    copied = set()
+    for f in p.repo_funcs('engine/'):
+        for n, cfid, nm in f.calls():
+            cls = nm.rsplit('::', 1)[0]
+            sn = short(nm)
+            if sn == 'operator=' or (sn == short(cls) and len(kids(n)) == 1 and
+                                     (strip_casts(kids(n)[0]).get('t') or '').replace('const ', '').strip() in (cls, short(cls))):
+                copied.add(cls)
+    n_c = 0
+    for rn, r in sorted(p.records.items()):
+        if not r['file'].startswith(p.root + '/engine') or rn not in copied:
+            continue
+        risky = [fl for fl in r['fields'] if not fl.get('dims') and not fl.get('has_init') and
+                 ((fl.get('ct') or '').replace('const ', '') == 'bool' or (fl.get('ct') or '').replace('const ', '') in p.enums)]
+        if not risky:
+            continue
+        for c in [f for f in p.funcs.values() if f.cls == rn and short(f.name) == short(rn) and f.body is not None]:
+            inits = c.d.get('inits', [])
+            if any(i.get('field') is None for i in inits):
+                continue            # delegating constructor
+            sites = [(g, n) for g in p.repo_funcs('engine/') for n, cfid, nm in g.calls() if cfid == c.id]
+            if not sites:
+                continue            # only run by an enclosing implicit constructor after zero-initialisation (value-initialised slots)
+            n_c += 1
+            inited = {i.get('field') for i in inits}
+            assigned = set()
+            for g in [c] + [p.funcs[x] for x in p.reachable_from([c.id]) if x in p.funcs and p.funcs[x].cls == rn]:
+                for x in g.all_nodes():
+                    rr = x.get('ref') or {}
+                    if rr.get('k') == 'Field' and rr['n'].rsplit('::', 1)[0] == rn and access_kind(g, x) == 'write':
+                        assigned.add(short(rr['n']))
+            miss = [fl['name'] for fl in risky if fl['name'] not in inited and fl['name'] not in assigned]
+            ctx.ob('C10.B12.members-initialised', c.id.split('(')[0] + '(' + ','.join(q['name'] or '' for q in c.params) + ')', not miss,
+                   'objects of %s are copied; this constructor gives every bool/enum member a value%s'
+                   % (short(rn), '' if not miss else ' — left indeterminate: %s (copying an invalid bool/enum is undefined)' % ', '.join(miss)),
+                   site=c.loc(), sample=(n_c <= 2 or bool(miss)))
+    ctx.floor('C10.B12.members-initialised', n_c, 3, 'constructors of copied classes with bool/enum members')
 
 
 def _is_scalar(t):
